@@ -143,6 +143,10 @@ class SymCase:
         """int() of an exact rational"""
         return sym.strunc(x) if sym.is_sym(x) else int(x)
 
+    def exact(self, x):
+        """the exact mathematical value of a number, for arithmetic inside contracts"""
+        return SNum(sym.zreal(x), "frac") if sym.is_sym(x) else Fraction(x)
+
     def ensure(self, name, cond):
         if not isinstance(cond, (bool, SBool, z3.BoolRef)):
             cond = self.interp.truth(cond)
@@ -244,6 +248,9 @@ class ConcCase:
 
     def trunc(self, x):
         return int(x)
+
+    def exact(self, x):
+        return Fraction(x)
 
     def ensure(self, name, cond):
         self.checks.append((name, bool(cond)))
@@ -611,6 +618,18 @@ class Verifier:
             return
         except Exception as e:
             res.crosscheck["mismatch"].append({"valuation": _jsonable(locals().get("val")), "error": repr(e)})
+            return
+        failed = [n for n, okk in c.checks if not okk]
+        if failed:
+            # the contract fails natively on this model point: a replayed witness in its own right
+            res.replays.append({"obligation": failed[0], "case": res.name, "valuation": _jsonable(val),
+                                "failed_checks": failed, "exception": c.exception,
+                                "results": [_short(r) for r in c.results], "found_by": "cross-check run"})
+            return
+        if o.get("float_ops"):
+            # the path went through the float error model: its symbolic result is a set of values,
+            # so only the contract clauses (above) can be compared, not the exact result
+            res.crosscheck["agree"] += 1
             return
         symres = o["ghost"].get("results", [])
         ok = True
